@@ -76,7 +76,7 @@ Proof. intros g s l. destruct l; cbn [apply fails]; solve [view_tac]. Qed.
 Lemma stopreq_log_fail : forall g s p, stopreq (log_fail g s p) = stopreq s || (negb (g_keep_going g) || p).
 Proof. intros g s p. unfold log_fail. cbn. destruct (negb (g_keep_going g) || p); cbn; [rewrite orb_true_r | rewrite orb_false_r]; reflexivity. Qed.
 Lemma stopreq_async_error : forall g s l, stopreq (async_error g s l) = stopreq s || (negb (g_keep_going g) || false).
-Proof. intros g s l. unfold async_error. cbn. rewrite stopreq_log_fail. reflexivity. Qed.
+Proof. intros g s l. unfold async_error, err_stop. cbn. rewrite stopreq_log_fail. reflexivity. Qed.
 
 Lemma view_stopreq : forall g s l, stopreq (apply g s l) =
   match fails g s l with Some p => stopreq s || (negb (g_keep_going g) || p) | None => stopreq s end.
